@@ -1,0 +1,358 @@
+// Verification seams for the model-checking harness that lives outside this repository.
+//
+// Compiled only with `--features verif`. Everything here is additive: re-exports of otherwise
+// private items, an in-memory byte pipe that can stand in for a `TcpStream` inside `Connection`,
+// and thread-local registries through which a harness decides every source of nondeterminism
+// (outgoing connects, random choices, tracker HTTP outcomes) and observes published snapshots.
+// With the feature off none of this exists and the crate is unchanged.
+
+#![allow(missing_docs)]
+
+pub use crate::bcodec::bencoder::BEncoder;
+pub use crate::commands::*;
+pub use crate::connection::Connection;
+pub use crate::constants::*;
+pub use crate::extractor::Extractor;
+pub use crate::frame::Frame;
+pub use crate::messages::*;
+pub use crate::metainfo::PiecePos;
+pub use crate::peer::Peer;
+pub use crate::peer_handler::{verif_blocks, PeerHandler};
+pub use crate::serializer::Serializer;
+pub use crate::session::Status;
+
+use bytes::BytesMut;
+use std::cell::RefCell;
+use std::collections::{BTreeMap, VecDeque};
+use std::sync::{Arc, Mutex};
+use tokio::sync::Notify;
+
+// ---------------------------------------------------------------------------------------------
+// In-memory connection
+// ---------------------------------------------------------------------------------------------
+
+#[derive(Debug, Clone, PartialEq)]
+pub enum Chunk {
+    /// One read() worth of bytes (never empty).
+    Data(Vec<u8>),
+    /// Orderly shutdown by the peer: every further read returns 0.
+    Eof,
+    /// Read error (e.g. RST): every further read fails.
+    Err,
+}
+
+#[derive(Default)]
+struct PipeInner {
+    inbound: VecDeque<Chunk>,
+    outbound: Vec<Vec<u8>>,
+    write_broken: bool,
+    reads_blocked: usize,
+}
+
+/// Scripted replacement for the socket of a `Connection`. `Send`, so handlers holding one can
+/// still be spawned with `tokio::spawn`.
+#[derive(Clone)]
+pub struct MemPipe {
+    inner: Arc<Mutex<PipeInner>>,
+    notify: Arc<Notify>,
+}
+
+impl MemPipe {
+    pub fn new() -> MemPipe {
+        MemPipe {
+            inner: Arc::new(Mutex::new(PipeInner::default())),
+            notify: Arc::new(Notify::new()),
+        }
+    }
+
+    /// Make `data` available to the client as exactly one read.
+    pub fn feed(&self, data: &[u8]) {
+        assert!(!data.is_empty(), "an empty read is EOF; use close()");
+        self.inner
+            .lock()
+            .unwrap()
+            .inbound
+            .push_back(Chunk::Data(data.to_vec()));
+        self.notify.notify_one();
+    }
+
+    pub fn close(&self) {
+        self.inner.lock().unwrap().inbound.push_back(Chunk::Eof);
+        self.notify.notify_one();
+    }
+
+    pub fn reset(&self) {
+        let mut inner = self.inner.lock().unwrap();
+        inner.inbound.push_back(Chunk::Err);
+        inner.write_broken = true;
+        drop(inner);
+        self.notify.notify_one();
+    }
+
+    /// Everything the client wrote so far, one entry per `send_msg`.
+    pub fn writes(&self) -> Vec<Vec<u8>> {
+        self.inner.lock().unwrap().outbound.clone()
+    }
+
+    pub fn writes_len(&self) -> usize {
+        self.inner.lock().unwrap().outbound.len()
+    }
+
+    /// Number of inbound chunks not yet consumed by the client.
+    pub fn pending(&self) -> usize {
+        self.inner.lock().unwrap().inbound.len()
+    }
+
+    /// How many times the client asked for bytes and found none.
+    pub fn reads_blocked(&self) -> usize {
+        self.inner.lock().unwrap().reads_blocked
+    }
+
+    pub(crate) async fn read_buf(&self, buf: &mut BytesMut) -> std::io::Result<usize> {
+        loop {
+            let notified = self.notify.notified();
+            {
+                let mut inner = self.inner.lock().unwrap();
+                match inner.inbound.front().cloned() {
+                    Some(Chunk::Data(data)) => {
+                        inner.inbound.pop_front();
+                        buf.extend_from_slice(&data);
+                        return Ok(data.len());
+                    }
+                    Some(Chunk::Eof) => return Ok(0),
+                    Some(Chunk::Err) => {
+                        return Err(std::io::Error::from(std::io::ErrorKind::ConnectionReset))
+                    }
+                    None => inner.reads_blocked += 1,
+                }
+            }
+            notified.await;
+        }
+    }
+
+    pub(crate) fn write_all(&self, data: &[u8]) -> std::io::Result<()> {
+        let mut inner = self.inner.lock().unwrap();
+        if inner.write_broken {
+            return Err(std::io::Error::from(std::io::ErrorKind::BrokenPipe));
+        }
+        inner.outbound.push(data.to_vec());
+        Ok(())
+    }
+}
+
+// ---------------------------------------------------------------------------------------------
+// Outgoing-connect seam
+// ---------------------------------------------------------------------------------------------
+
+thread_local! {
+    static NET: RefCell<Option<Box<dyn FnMut(&str) -> Option<MemPipe>>>> = RefCell::new(None);
+    static CHOICES: RefCell<ChoiceState> = RefCell::new(ChoiceState::default());
+    static HTTP: RefCell<Option<Box<dyn FnMut(&reqwest::Request) -> HttpOutcome>>> = RefCell::new(None);
+    static CLIENT: RefCell<Option<reqwest::Client>> = RefCell::new(None);
+    static HANDLERS: RefCell<BTreeMap<String, HandlerSnap>> = RefCell::new(BTreeMap::new());
+    static SESSION: RefCell<Option<SessionSnap>> = RefCell::new(None);
+}
+
+/// Install (or remove) the function that answers `TcpStream::connect` for this thread:
+/// `Some(pipe)` = connected, `None` = refused.
+pub fn set_net(f: Option<Box<dyn FnMut(&str) -> Option<MemPipe>>>) {
+    NET.with(|n| *n.borrow_mut() = f);
+}
+
+/// `None`: no seam installed, use the real socket. `Some(None)`: connect refused.
+pub(crate) fn net_connect(addr: &str) -> Option<Option<MemPipe>> {
+    NET.with(|n| n.borrow_mut().as_mut().map(|f| f(addr)))
+}
+
+// ---------------------------------------------------------------------------------------------
+// Choice points (replace thread_rng)
+// ---------------------------------------------------------------------------------------------
+
+#[derive(Default)]
+struct ChoiceState {
+    script: VecDeque<usize>,
+    log: Vec<(usize, usize)>,
+}
+
+/// Digits consumed, in order, by the next `choose` calls on this thread (missing digits = 0).
+pub fn set_choices(script: Vec<usize>) {
+    CHOICES.with(|c| {
+        let mut c = c.borrow_mut();
+        c.script = script.into();
+        c.log.clear();
+    });
+}
+
+/// (arity, digit taken) of every choice point passed since the last `set_choices`.
+pub fn take_choice_log() -> Vec<(usize, usize)> {
+    CHOICES.with(|c| std::mem::take(&mut c.borrow_mut().log))
+}
+
+/// A value in `0..n`, decided by the harness. `n <= 1` is not a choice and is not recorded.
+pub fn choose(n: usize) -> usize {
+    if n <= 1 {
+        return 0;
+    }
+    CHOICES.with(|c| {
+        let mut c = c.borrow_mut();
+        let digit = c.script.pop_front().unwrap_or(0);
+        assert!(digit < n, "scripted choice {} out of range 0..{}", digit, n);
+        c.log.push((n, digit));
+        digit
+    })
+}
+
+/// Fisher–Yates with every draw taken from `choose`; all-zero digits give the identity, and every
+/// permutation is reachable by exactly one digit vector.
+pub fn shuffle<T>(slice: &mut [T]) {
+    for i in (1..slice.len()).rev() {
+        let j = i - choose(i + 1);
+        slice.swap(i, j);
+    }
+}
+
+// ---------------------------------------------------------------------------------------------
+// Tracker HTTP seam
+// ---------------------------------------------------------------------------------------------
+
+pub enum HttpOutcome {
+    /// Send the request for real.
+    Pass,
+    Respond(reqwest::Response),
+    Fail(reqwest::Error),
+}
+
+pub fn set_http(f: Option<Box<dyn FnMut(&reqwest::Request) -> HttpOutcome>>) {
+    HTTP.with(|h| *h.borrow_mut() = f);
+}
+
+/// `reqwest::Client::new()` loads the TLS root store (~70 ms); one per thread is enough.
+pub(crate) fn cached_client() -> reqwest::Client {
+    CLIENT.with(|c| {
+        c.borrow_mut()
+            .get_or_insert_with(reqwest::Client::new)
+            .clone()
+    })
+}
+
+pub(crate) fn http(client: reqwest::Client) -> HttpClient {
+    HttpClient { client }
+}
+
+pub(crate) struct HttpClient {
+    client: reqwest::Client,
+}
+
+pub(crate) struct HttpReq {
+    builder: reqwest::RequestBuilder,
+}
+
+impl HttpClient {
+    pub(crate) fn get(&self, url: &str) -> HttpReq {
+        HttpReq {
+            builder: self.client.get(url),
+        }
+    }
+}
+
+impl HttpReq {
+    pub(crate) fn query(self, params: &[(&str, String)]) -> HttpReq {
+        HttpReq {
+            builder: self.builder.query(params),
+        }
+    }
+
+    pub(crate) async fn send(self) -> Result<reqwest::Response, reqwest::Error> {
+        let (client, request) = self.builder.build_split();
+        let request = request?;
+        let outcome = HTTP.with(|h| h.borrow_mut().as_mut().map(|f| f(&request)));
+        match outcome {
+            None | Some(HttpOutcome::Pass) => client.execute(request).await,
+            Some(HttpOutcome::Respond(resp)) => Ok(resp),
+            Some(HttpOutcome::Fail(e)) => Err(e),
+        }
+    }
+}
+
+// ---------------------------------------------------------------------------------------------
+// Published snapshots
+// ---------------------------------------------------------------------------------------------
+
+#[derive(Debug, Clone, PartialEq)]
+pub struct RxSnap {
+    pub piece_index: usize,
+    pub hash: [u8; 20],
+    pub buff: Vec<u8>,
+    pub requested: Vec<(usize, usize)>,
+    pub left: Vec<(usize, usize)>,
+}
+
+#[derive(Debug, Clone, PartialEq)]
+pub struct HandlerSnap {
+    pub peer_id: Option<[u8; 20]>,
+    pub choked: bool,
+    pub interested: bool,
+    pub keep_alive: u32,
+    pub piece_rx: Option<RxSnap>,
+    pub piece_tx: Option<(usize, usize)>,
+    pub msg_buff: Vec<String>,
+    pub downloaded: Vec<usize>,
+    pub uploaded: Vec<usize>,
+    pub unexpected_blocks: usize,
+    pub conn_buffer_len: usize,
+}
+
+#[derive(Debug, Clone, PartialEq)]
+pub struct PeerSnap {
+    pub addr: String,
+    pub id: Option<[u8; 20]>,
+    pub pieces: Vec<bool>,
+    pub piece_index: Option<usize>,
+    pub am_interested: bool,
+    pub am_choked: bool,
+    pub interested: bool,
+    pub choked: bool,
+    pub optimistic_unchoke: bool,
+    pub download_rate: Option<u32>,
+    pub uploaded_rate: Option<u32>,
+    pub has_job: bool,
+}
+
+#[derive(Debug, Clone, PartialEq)]
+pub struct SessionSnap {
+    pub statuses: Vec<Status>,
+    pub peers: Vec<PeerSnap>,
+    pub candidates: Vec<(String, [u8; 20])>,
+    pub round: usize,
+    pub files_extracted: bool,
+    pub tracker_running: bool,
+    pub extractor_running: bool,
+    pub loop_iterations: u64,
+}
+
+pub(crate) fn publish_handler(addr: &str, snap: HandlerSnap) {
+    HANDLERS.with(|h| {
+        h.borrow_mut().insert(addr.to_string(), snap);
+    });
+}
+
+pub fn handler_snapshot(addr: &str) -> Option<HandlerSnap> {
+    HANDLERS.with(|h| h.borrow().get(addr).cloned())
+}
+
+pub fn clear_snapshots() {
+    HANDLERS.with(|h| h.borrow_mut().clear());
+    SESSION.with(|s| *s.borrow_mut() = None);
+}
+
+pub(crate) fn publish_session(mut snap: SessionSnap) {
+    SESSION.with(|s| {
+        let mut s = s.borrow_mut();
+        snap.loop_iterations = s.as_ref().map(|p| p.loop_iterations + 1).unwrap_or(1);
+        *s = Some(snap);
+    });
+}
+
+pub fn session_snapshot() -> Option<SessionSnap> {
+    SESSION.with(|s| s.borrow().clone())
+}
